@@ -282,7 +282,7 @@ class Run:
                 continue
             seen.add(key)
             if len(replays) < 10:
-                path = self.extract_run(v)
+                path = v.get("replay_path") or self.extract_run(v)
                 replays.append(path)
                 log("VIOLATION property=%s replay=%s" % (self.pid, path))
                 log("  invariant %s at record %s of run %s: %s" % (v["inv"], v.get("l"), v.get("run"), v.get("detail", "")))
